@@ -68,13 +68,18 @@ def fmtAmac (p : Pkt) (w : Wire) : String :=
     if d.length = optDataLen ∧ m.length = macLen then (if d.drop metadataLen = m then "ok" else "bad") else "none"
   | _, _ => "none"
 
-/-- answer of op srv.fwd for a forward: the re-parsed extension headers. The hop-by-hop extension of
-    the op line has the single option (201, 0909). -/
+/-- the driver's hop-by-hop extensions hold one option as type, length, data -/
+def fmtHbh (w : Wire) : String :=
+  match w.hbh with
+  | some (_, t :: _ :: d) => s!"{t}:{toHex d}"
+  | _ => "?"
+
+/-- answer of op srv.fwd for a forward: the re-parsed extension headers. -/
 def fmtForwardExt (f : Fwd) : String :=
   let w := f.wire
   if !w.parses then s!"ok forward to={toHex f.toAddr}:{f.toPort} garbled" else
   let chain := (if w.hbh.isSome then "hbh+" else "") ++ (if w.e2e.isSome then "e2e+" else "") ++ "udp"
-  s!"ok forward to={toHex f.toAddr}:{f.toPort} same=1 chain={chain} hbh={fmtOpts w.hbh.isSome ["201:0909"]} e2e={fmtOpts w.e2e.isSome ((w.e2e.getD []).map fmtEOpt)} amac={fmtAmac f.pkt w}"
+  s!"ok forward to={toHex f.toAddr}:{f.toPort} same=1 chain={chain} hbh={fmtOpts w.hbh.isSome [fmtHbh w]} e2e={fmtOpts w.e2e.isSome ((w.e2e.getD []).map fmtEOpt)} amac={fmtAmac f.pkt w}"
 
 def fmtOutcome : Outcome → String
   | .drop r => s!"ok drop #b{r}"
@@ -132,7 +137,7 @@ def srvHandleG (fwd : Bool) (toks : List String) : String :=
       let pt ← num? pt 0 255
       let path ← lowerHex? path
       let rev ← parseRev? rev
-      let hbh ← num? hbh 0 1
+      let hbh ← num? hbh 0 (if fwd then 40 else 1)  -- srv.fwd: hop-by-hop option (201, hbh+1 bytes 09)
       let e2e ← num? e2e 0 1
       let pre ← num? pre 0 1
       let auth ← (if auth = "none" then some none else (lowerHex? auth).map some)
@@ -187,7 +192,8 @@ def srvHandleG (fwd : Bool) (toks : List String) : String :=
           srcAddr := sa, dstAddr := da, pathType := pt, path := path, rev := rev, l4 := l4,
           srcPort := sp, dstPort := dp, udpLenOk := ulenOk, e2e := e2e = 1, auth := auth,
           mac := mac, payload := pld, ntpOk := ntpOk,
-          hbh := if hbh = 1 then some [201, 2, 9, 9] else none, opts := opts, stamp := zone = "sw" }
+          hbh := if hbh ≥ 1 then some ([201, hbh + 1] ++ List.replicate (hbh + 1) 9) else none,
+          opts := opts, stamp := zone = "sw" }
       match fwd, handle cfg p with
       | true, .forward f => pure (fmtForwardExt f)
       | _, o => pure (fmtOutcome o)
